@@ -162,6 +162,7 @@ type prioExec struct {
 	stopRet                 atomic.Bool
 	runningAtStopReturn     atomic.Int64
 	blockedAtGracefulReturn atomic.Value // string: the same at the return of GracefulStop()
+	stopIssuedA             atomic.Bool  // mirror of stopIssued for other goroutines
 	blockedAtStopReturn     atomic.Value // string: stack of a library goroutine found blocked when a Stop() call returned
 	gracefulOn              bool
 	gracefulRt              atomic.Bool
@@ -637,6 +638,11 @@ func (x *prioExec) settle() {
 
 // await receives until cond holds or the virtual window w has passed.
 func (x *prioExec) await(w time.Duration, cond func() bool) bool {
+	if x.sc.Starved && !x.unstarved && w > 3*time.Microsecond {
+		// nothing is claimed about progress while a priority has no share: a stall just ends the
+		// scenario, and waiting the full window for it only costs (a lot of) real time
+		w = 3 * time.Microsecond
+	}
 	deadline := time.Now().Add(w)
 	for !cond() {
 		rem := time.Until(deadline)
@@ -1271,10 +1277,14 @@ func (x *prioExec) callGraceful() {
 		x.sys.graceful()
 		// C19: at the instant GracefulStop() returns - also when it was cut short by Stop() or a
 		// cancel - nothing the discipline started may still be blocked somewhere
-		for _, g := range censusBubble(x.ctl.bubbleID.Load()) {
-			if blockedState(g.State) {
-				x.blockedAtGracefulReturn.CompareAndSwap(nil, g.Text)
-				break
+		// (only when a Stop() / cancel has been issued meanwhile: an undisturbed graceful stop is
+		// censused by the stepper, and a goroutine dump stops the world for every worker)
+		if x.stopIssuedA.Load() {
+			for _, g := range censusBubble(x.ctl.bubbleID.Load()) {
+				if blockedState(g.State) {
+					x.blockedAtGracefulReturn.CompareAndSwap(nil, g.Text)
+					break
+				}
 			}
 		}
 		x.gracefulRt.Store(true)
@@ -1338,8 +1348,16 @@ func (x *prioExec) epilogue() {
 		if !x.termSeen {
 			x.res.NeverEndedHeld = true
 		}
-		if x.sys.cancel != nil {
-			x.sys.cancel()
+		if x.sys.stop != nil { // end of the scenario: v1 is stopped (its context may be nil)
+			x.stopIssued = true
+			x.stopIssuedA.Store(true)
+			stopped := make(chan struct{})
+			go func() { x.sys.stop(); close(stopped) }()
+			select {
+			case <-stopped:
+			case <-time.After(prioL):
+				x.res.Aborted += " Stop() at the end of a never-ending scenario did not return"
+			}
 		}
 		return
 	}
@@ -1531,6 +1549,12 @@ func runPrioV(sc PrioScenario, ctl *bubbleCtl) *prioResult {
 			x.fail("C15", "constructor-wrong-error", "divider fault during creation (%s): New returned %q instead of ErrDividerBad", x.mon.faultDesc, err.Error())
 		}
 		x.mon.report()
+		close(x.abort) // parked writers were started before the constructor was called
+		for _, in := range x.chans {
+			if in.multi > 0 {
+				in.mwWG.Wait()
+			}
+		}
 		return res
 	}
 	if x.mon.faulted.Load() && !sc.isV1() && sc.Fault.Trigger == "" && sc.Fault.At == 0 {
@@ -1575,8 +1599,17 @@ func runPrioV(sc PrioScenario, ctl *bubbleCtl) *prioResult {
 		}
 	}
 	res.PriosWith2 = two
-	if sc.Starved && !x.unstarved && !x.termSeen && x.sys.cancel != nil {
-		x.sys.cancel() // a starved discipline is ended by its context
+	if sc.Starved && !x.unstarved && !x.termSeen && x.sys.stop != nil {
+		// a starved discipline is ended by Stop() (its context may be nil)
+		x.stopIssued = true
+		x.stopIssuedA.Store(true)
+		stopped := make(chan struct{})
+		go func() { x.sys.stop(); close(stopped) }()
+		select {
+		case <-stopped:
+		case <-time.After(prioL):
+			res.Aborted += " Stop() of a starved discipline did not return"
+		}
 	}
 	// teardown of the harness goroutines; leftovers in old unbuffered channels are taken by us
 	close(x.abort)
